@@ -46,61 +46,61 @@ CLAIMED["C10"] = (
     "the mirror is the same matcher code without the router's shortcut in front (the differential the property states); a difference between the tree and the independent reference matcher is only recorded as a class (it would be C01 / C09 material)",
     "DESIGN.md section 4 C10")
 CLAIMED["C12"] = (
-    "rapid-generated named routes x value assignments (values with braces, other bind names, slashes, empty, absent, unknown names, withOptional spelled several ways), oracle = own single-pass substitution over the derivation; inverse direction through dispatched requests",
+    "rapid-generated named routes x value assignments (values with braces, other bind names, slashes, empty, absent, unknown names, withOptional spelled several ways), oracle = own single-pass substitution over the derivation; the same builds repeated from inside dispatched requests whose binds share names with the target; every URL handed out re-read after all later builds (a held string stays what it was); inverse direction through dispatched requests",
     "Named routes registered through Get/Route/Routes/Any/Combo/Group are built with Router.URLPath and Context.URLPath for random assignments and compared with an exact single-pass substitution written from the statement; requests built from route instances are served and the handler rebuilds the URL of its own route from the parameters it received, which must give the decoded request path; empty, duplicate and unknown names must panic.",
     "trusts the reference substitution (30 lines) and the reference parser for the derivation; supplied names are identifiers",
     "DESIGN.md section 4 C12")
 
 CLAIMED["C03"] = (
-    "rapid-generated handler programs (middleware, nested groups, route handlers, action; ops write/Next/recovering Next/cancel/panic/return value; GET and HEAD; sibling routes in the same group), oracle = cursor interpreter written from the statement + model-free trace invariants",
+    "rapid-generated handler programs (middleware, nested groups, route handlers, action; ops write/Next/recovering Next/cancel/panic/return value; GET and HEAD; sibling routes in the same group; the same stack of group paths opened twice with different handlers), oracle = cursor interpreter written from the statement + model-free trace invariants",
     "Random handler stacks are registered on a real Flame (middleware, up to three nested groups, 1..3 route handlers, optional action, other routes before and after in the same group) and one request is served; the recorded enter/next/back/exit trace, the status and the body must equal those of a cursor interpreter written from the statement, handlers must be entered as 0,1,2,... without gap or repetition and enter/exit must nest.",
     "trusts the interpreter (60 lines) and httptest; handlers are closures of the shapes func(Context) and func(Context) result",
     "DESIGN.md section 4 C03")
 CLAIMED["C13"] = (
-    "rapid-generated operation histories on NewResponseWriter over a spy writer (WriteHeader/Write incl. short writes/Flush/Before hooks; GET/HEAD/POST; with and without http.Flusher), oracle = state-machine model compared after every step + invariants over the spy's call log; second rapid check: responses of many 1..32 MiB writes into a writer that only counts, totals around 2^31 and 2^32 bytes, Size() == bytes forwarded",
+    "rapid-generated operation histories on NewResponseWriter over a spy writer (WriteHeader/Write incl. short writes with an error and short counts without one/Flush/Before hooks; GET/HEAD/POST; with and without http.Flusher), oracle = state-machine model compared after every step + invariants over the spy's call log; second rapid check: responses of many 1..32 MiB writes into a writer that only counts, totals around 2^31 and 2^32 bytes, Size() == bytes forwarded",
     "Histories of 1..14 operations are applied to the real ResponseWriter wrapped around a spy; after every step Status/Written/Size and Write's results must equal a state-machine model written from the statement, the spy must have seen at most one status line and seen it first with the headers set by the hooks already present, hooks registered before the first write must have run exactly once in reverse order observing Status()==0, later hooks never.",
     "trusts the 40-line model; hooks do not write (precondition); status codes 100..999",
     "DESIGN.md section 4 C13")
 CLAIMED["C14"] = (
     "rapid-generated return values for every supported shape at every chain position (+ custom ReturnHandler at application/request scope, + a value returned earlier in the chain), oracle = own response table, continuation rule and fast-path vs reflective differential",
-    "Handlers of the 13 supported return shapes returning generated values (arbitrary bytes, empty, nil, nil/non-nil errors of four types, any valid status) are placed as middleware, group handler, route handler or action; the spy's status, body and call order must equal an own table written from the statement, the following handler must run iff nothing was written, func() (int,string) must behave identically through the built-in fast path and reflectively, and a mapped ReturnHandler must receive exactly the returned values while the table is not applied.",
+    "Handlers of the 13 supported return shapes returning generated values (arbitrary bytes, empty, nil, nil/non-nil errors of six home-made types and 24 well-known error values of the standard library as they are or wrapped, any valid status) are placed as middleware, group handler, route handler or action; the spy's status, body and call order must equal an own table written from the statement, the following handler must run iff nothing was written, func() (int,string) must behave identically through the built-in fast path and reflectively, and a mapped ReturnHandler must receive exactly the returned values while the table is not applied.",
     "trusts the table (40 lines); (int, \"\") sends the status with an empty body",
     "DESIGN.md section 4 C14")
 CLAIMED["C15"] = (
-    "rapid-generated chains with Recovery at any position, panics of eight value kinds (incl. runtime errors, http.ErrAbortHandler, typed-nil errors and failed injection) at any later position/phase, in three environments, over request sequences; oracle = recover() around ServeHTTP + interpreter of what had been sent before the panic + fresh-instance differential",
+    "rapid-generated chains with Recovery at any position, panics of eight value kinds (incl. runtime errors, http.ErrAbortHandler, typed-nil errors and failed injection) at any later position/phase, in three environments, over request sequences, optionally with a client that is gone (body writes fail below); oracle = recover() around ServeHTTP + interpreter of what had been sent before the panic + fresh-instance differential",
     "Random applications with Recovery as middleware, group handler or first route handler, recording middleware before it and 1..3 later handler programs are hit with sequences of panicking and healthy requests: nothing may escape ServeHTTP, the status must be the one sent before the panic or 500 if none, the body must be the earlier bytes plus a tail that shows the panic value in development mode and shows neither the value nor stack frames otherwise, every recording middleware must complete its code after Next(), and healthy requests must answer like on a fresh instance.",
     "trusts the interpreter of the handler programs (40 lines); SetEnv is process-global and set per case, cases run one at a time",
     "DESIGN.md section 4 C15")
 
 CLAIMED["C11"] = (
-    "rapid-generated registration programs (nested Group with handlers, Get..Trace, Route, Any, Routes list/args forms, Combo, AutoHead toggles; handler slices with spare capacity), oracle = own flatten() + differential against a Flame built from the flat list",
+    "rapid-generated registration programs (nested Group with handlers, Get..Trace, Route, Any, Routes list/args forms, Combo, AutoHead toggles; handler slices with spare capacity; group paths used twice at one level; children that spell the enclosing prefix again), oracle = own flatten() + differential against a Flame built from the flat list",
     "Registration programs are built on a Flame P and their own flat expansion (method, concatenated path, group handlers outermost first then own) on a Flame Q through Route(); for every registered path and all nine methods the handler-id trace, not-found and parameters of P must equal Q's and flatten's expectation, which covers group stack discipline, AutoHead scope, Routes/Any expansion and slice aliasing between sibling routes, groups and Combo methods; Combo must refuse a repeated method.",
     "trusts flatten (50 lines, written from the statement); while AutoHead is on, GET is declared through Get/Combo.Get/Any only",
     "DESIGN.md section 4 C11")
 
 CLAIMED["C04"] = (
-    "rapid-generated histories of Map/MapTo/Set/Invoke/Apply over 1..3 nested injectors and a 13-type universe (reflect.MakeFunc handlers, reflect.StructOf targets, six fast invokers with plain twins), oracle = own scope-chain resolver with set-valued implementor resolution; second check at framework level with live model (request > application > outer parent, remapped Context/ResponseWriter/*http.Request, built-in fast wrappers vs reflective handlers)",
+    "rapid-generated histories of Map/MapTo/Set/Invoke/Apply over 1..3 nested injectors and a 26-type universe (named and unnamed composite types, types that print alike, sealed and empty interfaces) (reflect.MakeFunc handlers, reflect.StructOf targets, six fast invokers with plain twins), oracle = own scope-chain resolver with set-valued implementor resolution; second check at framework level with live model (request > application > outer parent, remapped Context/ResponseWriter/*http.Request, built-in fast wrappers vs reflective handlers)",
     "Interleaved registrations and invocations are replayed on real injectors; every argument must be a legal resolution by the own resolver (exact in scope, else any value registered in that scope under an implementing key, else parent), unresolvable parameters must give an error naming the type with the body not run, results must come back DeepEqual, and fast invokers must receive what their plain twins receive. At framework level a live model checks what func(Context), func(ResponseWriter,*Request), http.HandlerFunc, reflective and typed handlers receive across request / application / outer scopes, remaps of the built-in services, per-request isolation and the panic on an unresolvable parameter.",
     "trusts the resolver (30 lines) and reflect; several implementors registered in one scope make a set of legal answers (map order is not part of the contract)",
     "DESIGN.md section 4 C04")
 CLAIMED["C18"] = (
-    "rapid-generated requests (value-first query encoding by an own percent codec, raw hostile queries, bind parameter values, cookie values of arbitrary bytes, raw Cookie headers) x every accessor with and without default, oracle = own evaluation of the one rule (own integer recogniser + big.Int range check, 12-literal boolean table, exact float round trip) and SetCookie -> Cookie round trip",
+    "rapid-generated requests (value-first query encoding by an own percent codec, raw hostile queries, bind parameter values, cookie values of arbitrary bytes up to 70 KB, cookies on one or on several Cookie header lines, raw Cookie headers) x every accessor with and without default, oracle = own evaluation of the one rule (own integer recogniser + big.Int range check, 12-literal boolean table, exact float round trip) and SetCookie -> Cookie round trip",
     "Every Query* accessor, Param/ParamInt/ParamInt64 and Cookie is called inside a handler for generated requests; results must equal an own evaluation of the rule 'present -> value converted by the standard rules, zero on malformed text; absent or empty -> default or zero', nothing may panic, and the name=value of the Set-Cookie header produced by SetCookie, sent back as Cookie header, must read back byte for byte for arbitrary byte strings.",
     "trusts net/http's own query/cookie parsing for what a raw header contains (raw inputs are checked for totality and consistency only) and strconv.ParseFloat for which texts are float literals; out-of-range integers are unspecified",
     "DESIGN.md section 4 C18")
 
 CLAIMED["C05"] = (
-    "rapid-generated concurrent rounds (2..16 goroutines x 5..40 requests over routes of every kind, yields inside handlers, GOMAXPROCS in {2,4,16}, 0..7 middleware) on a fresh instance, built with -race; oracle = serial-vs-concurrent differential + Go race detector (halt_on_error, the round in flight is the replay artefact)",
+    "rapid-generated concurrent rounds (2..16 goroutines x 5..40 requests over routes of every kind, yields inside handlers, GOMAXPROCS in {2,4,16}, 0..7 middleware, a second application mounted below the first, a Static directory without index hammered a hundred times) on a fresh instance, built with -race; oracle = serial-vs-concurrent differential + Go race detector (halt_on_error, the round in flight is the replay artefact)",
     "Two identical applications are built per round; one serves every distinct request alone, the fresh one is hit by goroutines released together; every concurrent response (route marker, echoed parameters, request-scoped token received by type, URLs built from named routes) must equal the serial one and the race detector must stay silent. Interleavings are sampled, not enumerated: this finds shared framework state written during requests (handler slices, lazily cached strings, shared parameter maps), not logical races on properly synchronised state.",
     "trusts the Go race detector; the harness does not own the scheduler, so a failure reproduces only statistically and absence of a report is weaker evidence here than for the other properties",
     "DESIGN.md section 4 C05 and section 5")
 CLAIMED["C16"] = (
-    "rapid-generated option sets x hostile request paths (traversal, doubled slashes, NUL, backslash, prefix look-alikes, directories, conditional requests) against an on-disk fixture with marker files inside and outside the directory, oracle = own resolver over the fixture manifest + 'no outside marker ever' invariant + silent-means-next-handler check",
+    "rapid-generated option sets x hostile request paths (traversal, doubled slashes, NUL, backslash, prefix look-alikes, directories, conditional requests, proxy / forged request headers; the directory named plainly, by default or through a relative symbolic link next to a decoy) against an on-disk fixture with marker files inside and outside the directory, oracle = own resolver over the fixture manifest + 'no outside marker ever' invariant + silent-means-next-handler check",
     "Static is mounted on a generated fixture tree with every option combination and asked for generated paths with every method; an own resolver says whether the request must be left alone (then the next handler must have produced the whole response and Static may not have set any header), redirected to a local slash-terminated path, or answered with exactly the marker of one regular file inside the directory (HEAD: empty; 304 for a matching ETag when SetETag), with the configured Expires / Cache-Control; no response may ever contain the marker of a file outside the directory.",
-    "trusts the resolver (40 lines), path.Clean and the local file system; no symlinks; an index-less directory without trailing slash may be redirected or left alone",
+    "trusts the resolver (40 lines), path.Clean and the local file system; no symlinks inside the directory (the directory itself may be reached through links); an index-less directory without trailing slash may be redirected or left alone",
     "DESIGN.md section 4 C16")
 CLAIMED["C17"] = (
-    "rapid-generated render calls (random nested JSON values, tagged structs, XML structs with attributes / optional / repeated elements, arbitrary bytes and text, any status, all option combinations, Renderer at any level, GET/POST/HEAD, optional nested request through the same application), oracle = spy status/Content-Type + decode round trip + layout by the configured indentation",
+    "rapid-generated render calls (random nested JSON values, tagged structs, XML structs with attributes / optional / repeated elements, arbitrary bytes and text, any status, all option combinations, Renderer at any level, GET/POST/HEAD, optional nested request through the same application, optionally after a request that rendered an unencodable value of the same Go type), oracle = spy status/Content-Type + decode round trip + layout by the configured indentation",
     "For every generated call the spy must have received exactly the given status once and first, the documented Content-Type with the configured charset, Binary / PlainText bodies verbatim, a JSON body that is valid JSON laid out with the configured indentation and decodes DeepEqual to the value, an XML body equal to encoding/xml's output that decodes into an equal struct; every handler after the Renderer middleware must receive a Render, and a nested request served before rendering must not disturb the outer response.",
     "trusts encoding/json and encoding/xml as 'the standard encoders'; values are encodable and XML-representable",
     "DESIGN.md section 4 C17")
